@@ -78,3 +78,11 @@ impl ResponseData {
         &self.response
     }
 }
+
+#[cfg(feature = "djc_tokio_imap_verif")]
+impl ResponseData {
+    /// Verification hook: the bytes this frame owns (what `parsed()` borrows from).
+    pub fn raw_bytes(&self) -> &[u8] {
+        &self.raw
+    }
+}
